@@ -921,8 +921,11 @@ theorem construct_source_eq_model (castU : Nat → Option Nat) (castS : Nat → 
     (hs : t.length ≤ s.redPos.length) (hsz : s.redPos.length < 2 ^ 62) :
     ∃ bsz', Thm.GenSrcSaisConstruct.constructSrc castU castS f s.pos s.lmsPos s.redPos bsz s.bStart s.bEnd t =
       Rs.Res.ok ((Sais.construct f t s).pos, (Sais.construct f t s).lmsPos, (Sais.construct f t s).redPos, bsz',
-        (Sais.construct f t s).bStart, (Sais.construct f t s).bEnd) :=
-  Thm.GenSrcSaisConstruct.constructSrc_eq_model castU castS hcU hcS f t s bsz hv hf hs hsz
+        (Sais.construct f t s).bStart, (Sais.construct f t s).bEnd) := by
+  -- the translated units this statement is about, named so that the orchestrator does not count it when one of them cannot be
+  -- regenerated (`stale_source_theorems` in `./check` looks for the unit names)
+  have _u := (@Gen.SrcSaisLms.construct, @Gen.SrcSaisCalcPos.calc_pos, @Gen.SrcSaisBuckets.init_bucket_start, @Gen.SrcPosTypes.new)
+  exact Thm.GenSrcSaisConstruct.constructSrc_eq_model castU castS hcU hcS f t s bsz hv hf hs hsz
 
 /-- **`suffix_array_int` from the source text**: `Sais::new(n)`, the recursion over the translated functions, `sais.pos` returns
 an array accepted by `checkSorted` for every dense integer text that ends in its unique minimum (`n < 2^62`) -/
@@ -930,6 +933,9 @@ theorem suffix_array_int_source_sorted (castU : Nat → Option Nat) (castS : Nat
     (hcU : ∀ c, castU c = some c) (hcS : ∀ w x, x < 2 ^ w → castS w x = some x)
     (t : List Nat) (hv : Sais.Valid t) (hsz : t.length < 2 ^ 62) :
     ∃ sa, Thm.GenSrcSaisConstruct.suffixArrayIntSrc castU castS t = Rs.Res.ok sa ∧ checkSorted t sa = true := by
+  -- the translated units this statement is about, named so that the orchestrator does not count it when one of them cannot be
+  -- regenerated (`stale_source_theorems` in `./check` looks for the unit names)
+  have _u := (@Gen.SrcSaisLms.construct, @Gen.SrcSaisCalcPos.calc_pos, @Gen.SrcSaisBuckets.init_bucket_start, @Gen.SrcPosTypes.new)
   obtain ⟨r, h1, h2⟩ := Thm.GenSrcSaisConstruct.constructSrc_sorted castU castS hcU hcS t t.length hv (Nat.le_refl _) hsz
   refine ⟨r.1, ?_, (checkSorted_iff_sorted t r.1).mpr h2⟩
   unfold Thm.GenSrcSaisConstruct.suffixArrayIntSrc
@@ -951,6 +957,9 @@ theorem suffix_array_source_sorted_partial (castT castU : Nat → Option Nat) (c
     (hcast : ∀ x, x < (Alpha.mk t).length + t.count (sentinelOf t) → castT x = some x)
     (hcU : ∀ c, castU c = some c) (hcS : ∀ w x, x < 2 ^ w → castS w x = some x) :
     ∃ sa, Thm.GenSrcSaisConstruct.suffixArraySrc castT castU castS t = Rs.Res.ok sa ∧ checkSA t sa = true := by
+  -- the translated units this statement is about, named so that the orchestrator does not count it when one of them cannot be
+  -- regenerated (`stale_source_theorems` in `./check` looks for the unit names)
+  have _u := (@Gen.SrcSaisLms.construct, @Gen.SrcSaisCalcPos.calc_pos, @Gen.SrcSaisBuckets.init_bucket_start, @Gen.SrcPosTypes.new)
   have q : (2 : Nat) ^ 62 < 2 ^ 64 := by decide
   obtain ⟨tt, h1, hv, hlen, hacc⟩ := transform_text_source_feeds_sais castT t hne hb hmin (by omega) hcast
   obtain ⟨r, h2, h3⟩ := Thm.GenSrcSaisConstruct.constructSrc_sorted castU castS hcU hcS tt t.length hv (by omega) (by omega)
